@@ -10,6 +10,10 @@ R16.12 a process-wide "already registered" record identifies classes by the obje
 R16.9  no value computed from a class is memoised on that class and read back through an inheriting lookup (getattr/hasattr/attribute)
 R16.8  the raw-dict fallback of union decoding applies to dict[str, Any] only (guard evaluated over {str, other} x {Any, other})
 R3.3/R3.4/R3.5 hook pairs inverse, rename plumbing, recursive registration (shared with C03)
+R16.14 the wire-key maps the hook factories consult are collected over the whole MRO: `fields(cls)` contains the inherited fields, so a map read
+       from the nearest `Meta` alone loses the keys of every base class as soon as a subclass declares its own Meta
+R16.15 a handler of _structure_union that records why a variant was rejected keeps the nested error detail (the group walker `_extract_errors`),
+       never `str(e)` alone: the message of a cattrs validation group is only its header, the offending field is in the sub-exceptions
 R16.13 both dataclass hook factories resolve the field types (get_type_hints with extras, written back) before cattrs sees the class
 """
 from __future__ import annotations
@@ -30,6 +34,8 @@ def run(repo: Repo, rep: Report, tier: str) -> None:
     cv.rule_unlisted_field_keeps_its_name(repo, rep, "R16.11")
     cv.rule_recursive_registration(repo, rep, "R16.7")
     cv.rule_field_types_resolved(repo, rep, "R16.13")
+    rule_meta_maps_over_mro(repo, rep, "R16.14")
+    rule_variant_errors_keep_detail(repo, rep, "R16.15")
     rule_class_memo(repo, rep, "R16.9")
     rule_strip_descends(repo, rep, "R16.10")
     rule_memo_by_identity(repo, rep, "R16.12")
@@ -614,3 +620,74 @@ def runtime_files_of(repo: Repo):
     from rules.c12 import runtime_files
 
     return runtime_files(repo)
+
+
+# ------------------------------------------------------------------------------------------------ R16.14 Meta maps are collected over the MRO
+_MAPS = ("key_transform_with_load", "key_transform_with_dump")
+
+
+def _meta_map_reads(conv, fn_node: ast.AST, depth: int = 0):
+    """[(function node in which the Meta map is read, the read)] for `fn_node` and the module helpers it hands a map name to"""
+    out = []
+    for x in ast.walk(fn_node):
+        if isinstance(x, ast.Attribute) and x.attr in _MAPS:
+            out.append((fn_node, x))
+        elif isinstance(x, ast.Call) and any(isinstance(a, ast.Constant) and a.value in _MAPS for a in x.args):
+            d = dotted(x.func) or ""
+            if d in ("getattr", "hasattr"):
+                out.append((fn_node, x))
+            elif d in conv.functions and depth < 2:
+                out.append((conv.functions[d].node, x))
+    return out
+
+
+def rule_meta_maps_over_mro(repo: Repo, rep, rule: str = "R16.14") -> None:
+    conv = repo.module("core.cattrs_converter")
+    for fname in ("_make_dataclass_structure_fn", "_make_dataclass_unstructure_fn"):
+        fn = conv.functions.get(fname)
+        if fn is None:
+            raise AnalysisError(f"anchor vanished: {fname}")
+        inherited = any((dotted(c.func) or "").split(".")[-1] == "fields" for c in calls_in(fn.node))
+        reads = _meta_map_reads(conv, fn.node)
+        if not reads:
+            raise AnalysisError(f"{rule}: {fname} no longer reads a Meta key map (anchor)")
+        sub = f"{conv.relpath}:{fname} wire-key map of inherited fields"
+        if not inherited:
+            rep.ok(rule, sub, "the factory does not iterate dataclasses.fields(cls): no inherited field is looked up in the map", fn.loc())
+            continue
+        bad = [r for where, r in reads if not any((isinstance(y, ast.Attribute) and y.attr in ("__mro__", "mro", "__bases__")) for y in ast.walk(where))]
+        if bad:
+            rep.violation(rule, sub, f"{fn.fq}|meta-map-of-nearest-class-only",
+                          f"`{norm(bad[0])[:70]}`: the map is taken from the Meta that attribute lookup finds first, while the loop runs over dataclasses.fields(cls) - inherited "
+                          "fields included: as soon as a subclass declares a Meta of its own the base class's keys are gone (decode fails on `createdAt`, encode emits `created_at`)", fn.loc(bad[0]))
+        else:
+            rep.ok(rule, sub, "the map is collected from every class of the MRO", fn.loc(reads[0][1]))
+
+
+# ------------------------------------------------------------------------------------------------ R16.15 rejected variants keep their error detail
+def rule_variant_errors_keep_detail(repo: Repo, rep, rule: str = "R16.15") -> None:
+    conv = repo.module("core.cattrs_converter")
+    su = conv.functions.get("_structure_union")
+    if su is None:
+        raise AnalysisError("anchor vanished: _structure_union")
+    if "_extract_errors" not in conv.functions:
+        raise AnalysisError(f"{rule}: the validation-group walker _extract_errors vanished (anchor)")
+    n = 0
+    for h in sorted([x for x in own_nodes(su.node) if isinstance(x, ast.ExceptHandler) and x.name], key=lambda x: x.lineno):
+        # a handler that *records* the failure: <list>.append(... e ...) with the exception rendered as text
+        recs = [c for c in calls_in(h) if isinstance(c.func, ast.Attribute) and c.func.attr == "append" and any(isinstance(y, ast.Name) and y.id == h.name for a in c.args for y in ast.walk(a))]
+        if not recs:
+            continue
+        n += 1
+        sub = f"{conv.relpath}:_structure_union rejected-variant record #{n}"
+        detail = any((dotted(c.func) or "").split(".")[-1] == "_extract_errors" and any(isinstance(y, ast.Name) and y.id == h.name for y in ast.walk(c)) for r in recs for c in calls_in(r))
+        plain = any(isinstance(c.func, ast.Name) and c.func.id in ("str", "repr") and c.args and isinstance(c.args[0], ast.Name) and c.args[0].id == h.name for r in recs for c in calls_in(r))
+        if detail:
+            rep.ok(rule, sub, "the nested validation errors (field path and reason) are kept", su.loc(recs[0]))
+        elif plain:
+            rep.violation(rule, sub, f"{su.fq}|variant-error-flattened|{n}",
+                          f"`{norm(recs[0])[:80]}`: for a cattrs validation group `str(e)` is only the header 'While structuring X (1 sub-exception)'; the sub-exceptions that name the "
+                          "offending field are dropped, and because every Optional[...] field goes through this function the ValueError of structure_from_dict stops at the optional field", su.loc(recs[0]))
+        else:
+            rep.ok(rule, sub, "the exception object itself is recorded", su.loc(recs[0]))
+    rep.require(n >= 2, f"{rule}: only {n} rejected-variant record(s) found in _structure_union (floor 2)")
